@@ -9,6 +9,7 @@ CONSTANTS
   MaxN = 8
   MaxRedirects = 8
   Combos <- CombosQ
+  HistKinds <- KindsQ
   Parts = 1
   Part = 0
   MaxLen = 14
